@@ -139,6 +139,7 @@ func (cs *ContractSet) parseFile(path, pkg string) error {
 	sc.Buffer(make([]byte, 1<<20), 1<<20)
 	var cur *FuncContract
 	var curLoop *LoopSpec
+	var dupErr error
 	ln := 0
 	var pending string
 	pendLine := 0
@@ -154,7 +155,8 @@ func (cs *ContractSet) parseFile(path, pkg string) error {
 		mk := func(kind, key string) *FuncContract {
 			fc := &FuncContract{Key: key, Kind: kind, Pkg: pkg, Loops: map[int]*LoopSpec{}, Flags: map[string]string{}, File: path, Line: lineNo}
 			if old, ok := cs.Funcs[key]; ok {
-				_ = old
+				// a second block for the same function would silently replace the first: refuse it
+				dupErr = fmt.Errorf("%s:%d: contract block %q is already declared at %s:%d", path, lineNo, key, old.File, old.Line)
 			}
 			cs.Funcs[key] = fc
 			curLoop = nil
@@ -414,6 +416,9 @@ func (cs *ContractSet) parseFile(path, pkg string) error {
 		if err := flush(pending, pendLine); err != nil {
 			return err
 		}
+	}
+	if dupErr != nil {
+		return dupErr
 	}
 	return sc.Err()
 }
